@@ -60,6 +60,10 @@ class RoCCAccelerator(Accelerator, ABC):
         # Only pass on the field names that are set in the current setup
         instructions = set([name[:-4] for name, _ in setup_op.iter_params()])
         current_fields = {key: val for key, val in acc_op.field_items() if key[:-4] in instructions}.items()
+        if to_add_as_defaults:
+            # the setup op with the defaults is only a temporary helper that is never inserted,
+            # it must not stay around as a user of its values
+            setup_op.drop_all_references()
         # Create the sequence of all operations that need to be emitted
         return [
             *optional_default_value,
